@@ -353,6 +353,14 @@ def run(ctx):
             same = cf[7] == cf[2] and cf[9] == cf[5]
         else:
             same = cf[6] == cf[1] and cf[8] == cf[4]
+        # oracle: a changed url / id of an import source of one side makes the two unequal (clone and original hold
+        # different ImportSource objects, possibly resolved to the SAME model: equals() must still compare url and id)
+        if same and c.mut[1].startswith("(MIsrc") and len(cf) > 11:
+            if W.content(W.parse(ci[0])) != W.content(W.parse(ci[1])) and cf[11] != "e00":
+                viol("oracle: after %s on the %s the serialised contents differ but equals() says %s" % (c.mut[1][:40], c.side[0], cf[11]),
+                     c, {"impl": cl[:6000]})
+                continue
+            mhist["isrc_equals_probe"] = mhist.get("isrc_equals_probe", 0) + 1
         if not same:
             shared_isrc = c.mut[1].startswith("(MIsrc")
             if shared_isrc and not fx["isrc"]:
@@ -365,7 +373,7 @@ def run(ctx):
     ctx.cov["rule"] = ("seeded random object worlds (gen/c11_worlds.py: 1-2 models with units, component trees to depth 3, variables "
                        "with by-name / linked / foreign Units objects, resets with and without order pointing at own / other / parent-less "
                        "variables, shared and private import sources, encapsulation ids, equivalences with ids between siblings, parent and "
-                       "child, across models and to parent-less variables, plus lone components, units, variables, resets); every object of "
+                       "child, across models and to parent-less variables -- made in random order so that in-model and out-of-model targets interleave in each variable's list --, plus lone components, units, variables, resets); every object of "
                        "every %d-th world and all models + %d random objects of the others are cloned; then single API mutations of original "
                        "or clone. distinct = by sha1 of (identity dump of the cloned object [+ mutation]); non-trivial = the clone holds at "
                        "least 2 objects (clone cases) / the mutation was applied to an object of the pair (mutation cases)" % (full_every, sample))
